@@ -520,6 +520,10 @@ var JavascriptTestValue interface{}
 //
 // What cannot be rendered (NaN, say) is returned as it is, and the
 // operation that gets it will complain.
+// JavascriptStackDepthLimit is the deepest nesting of function calls
+// that a script gets.
+var JavascriptStackDepthLimit = 2000
+
 func jsonTypes(x interface{}) interface{} {
 	js, err := json.Marshal(x)
 	if err != nil {
@@ -551,6 +555,10 @@ func RunJavascript(ctx *Context, bs *Bindings, props map[string]interface{}, src
 	envBindings := make(map[string]interface{})
 
 	runtime := otto.New()
+	// Without a limit a script that recurses without end (function
+	// f(n){return f(n+1)}; f(0)) overflows the Go stack, which is
+	// fatal for the whole process.  With one it gets a RangeError.
+	runtime.SetStackDepthLimit(JavascriptStackDepthLimit)
 
 	if ctx != nil && ctx.App != nil {
 		if err := ctx.App.UpdateJavascriptRuntime(ctx, runtime); err != nil {
